@@ -501,6 +501,7 @@ func c11System(cfg c11Cfg) *bfs.System[W, tfOp] {
 }
 
 func runC11(c *ev.Ctx) {
+	defer sizeSweep(c, "C11")
 	allVals := []vref{{0, 0}, {0, 1}, {0, 2}, {3, 0}, {4, 0}, {5, 0}, {5, 1}}
 	bad := []string{"", "a", ".", "#", "..a", ".a.", ".a#", "#x", "#-1", "#0.", "#0#", ".a..b", "#0##1", "a.b", "0", ".a#x", "#1x"}
 	segsFull := []string{".a", ".b", "#0", "#1", "#2", "#3", "#5"}
@@ -511,7 +512,8 @@ func runC11(c *ev.Ctx) {
 	e9 := string(rune(0xE9))
 	cfgs = append(cfgs,
 		c11Cfg{name: "two writes (unset/set) from every tree (<=4 nodes), paths of <=2 segments with padding indices", segs: []string{".a", "#0", "#1", "#3", "#4"}, maxSegs: 2, depth: 2, values: []vref{{0, 1}}, startNodes: 4, startDepth: 3},
-		c11Cfg{name: "one write, multi-byte and multi-character keys", segs: []string{"." + e9, ".ab", "#0", "#1", "#2"}, maxSegs: 3, depth: 1, values: []vref{{0, 1}, {3, 0}, {5, 0}}, badUnset: bad[:4], startNodes: 4, startDepth: 3, keys: []string{e9, "ab"}})
+		c11Cfg{name: "one write, multi-byte and multi-character keys", segs: []string{"." + e9, ".ab", "#0", "#1", "#2"}, maxSegs: 3, depth: 1, values: []vref{{0, 1}, {3, 0}, {5, 0}}, badUnset: bad[:4], startNodes: 4, startDepth: 3, keys: []string{e9, "ab"}},
+		c11Cfg{name: "one write, keys that differ only in leading/trailing white space", segs: []string{".a", ".a ", ". a", ".a\t", "#0", "#1"}, maxSegs: 2, depth: 1, values: []vref{{0, 1}, {3, 0}}, badUnset: []string{".a\n", " .a", ".a .b "}, startNodes: 3, startDepth: 3, keys: []string{"a", "a ", " a"}})
 	cfgs = append(cfgs,
 		c11Cfg{name: "one write, lists whose equal elements share one field object (NewListOf runs) or are SubList/Concat results", segs: []string{".a", "#0", "#1", "#2", "#4"}, maxSegs: 2, depth: 1, values: []vref{{0, 1}, {0, 2}, {3, 0}}, startNodes: 4, startDepth: 3, routes: []int{9, 2, 3}})
 	if c.Thorough() {
